@@ -79,3 +79,61 @@ contract(CP + 'parse_pseudo_contains', params=_PP, match_params={'m': PATS + 'PA
                  ["sel.contains[len(old(sel.contains))].text == vals_from(m.group('values'), 0)",
                   "sel.contains[len(old(sel.contains))].own == (ascii_lower(unesc(m.group('name'), False)) == ':-soup-contains-own')"],
          properties=['C06', 'C19'])
+
+from pyvc.tree import ISEL, SELLIST, SELTAG   # noqa: E402
+from pyvc.types import TTup   # noqa: E402
+SYN = {'SelectorSyntaxError': None}
+contract(CP + 'parse_tag_pattern', params=_PP, match_params={'m': PATS + 'PAT_TAG'}, returns=BOOL, modifies=['sel.tag'],
+         ensures=['result', 'sel.tag is not None', "sel.tag.name == unesc(m.group('tag_name'), False)",
+                  "sel.tag.prefix == (unesc(m.group('tag_ns')[:-1], False) if m.group('tag_ns') else None)"],
+         properties=['C06', 'C01', 'C12'])
+# the recursive descent itself is not under a discharged contract: what it returns is named, its consumption of tokens is explicit
+contract(CP + 'parse_selectors', params=dict(self=CSSPARSER, iselector=ISEL, index=INT, flags=INT), returns=SELLIST, opaque=True,
+         modifies=['iselector.pos'], ensures=['result == ps_result(self, old(iselector.pos), index, flags)'],
+         raises={'SelectorSyntaxError': None, 'NotImplementedError': None}, properties=['C06'])
+contract(CP + 'parse_pseudo_open', params=dict(self=CSSPARSER, sel=PSEL, name=STR, has_selector=BOOL, iselector=ISEL, index=INT), returns=BOOL,
+         modifies=['sel.selectors', 'iselector.pos'], raises={'SelectorSyntaxError': None, 'NotImplementedError': None},
+         ensures=['result'] + _appended('selectors') +
+                 ['sel.selectors[len(old(sel.selectors))] == ps_result(self, old(iselector.pos), index, open_flags(name))'],
+         properties=['C06', 'C05'])
+
+_PN = "ascii_lower(unesc(m.group('name'), False))"
+_SIMPLE = f"(not m.group('open'))"
+_KEEP = dict(flags='sel.flags == old(sel.flags)', nth='sel.nth == old(sel.nth)', selectors='sel.selectors == old(sel.selectors)',
+             no_match='sel.no_match == old(sel.no_match)')
+
+
+def _keep(*changed):
+    return ' and '.join(v for k, v in _KEEP.items() if k not in changed)
+
+
+_PC = ['result[1] == is_html']
+for nm, flag in ((':root', 'ct.SEL_ROOT'), (':scope', 'ct.SEL_SCOPE'), (':empty', 'ct.SEL_EMPTY')):
+    _PC.append(f"implies({_SIMPLE} and {_PN} == '{nm}', result[0] and sel.flags == (old(sel.flags) | {flag}) and {_keep('flags')})")
+for nm, const in ((':defined', 'CSS_DEFINED'), (':link', 'CSS_LINK'), (':any-link', 'CSS_LINK'), (':checked', 'CSS_CHECKED'), (':default', 'CSS_DEFAULT'),
+                  (':indeterminate', 'CSS_INDETERMINATE'), (':disabled', 'CSS_DISABLED'), (':enabled', 'CSS_ENABLED'), (':required', 'CSS_REQUIRED'),
+                  (':optional', 'CSS_OPTIONAL'), (':read-only', 'CSS_READ_ONLY'), (':read-write', 'CSS_READ_WRITE'), (':in-range', 'CSS_IN_RANGE'),
+                  (':out-of-range', 'CSS_OUT_OF_RANGE'), (':placeholder-shown', 'CSS_PLACEHOLDER_SHOWN')):
+    _PC.append(f"implies({_SIMPLE} and {_PN} == '{nm}', result[0] and sel.selectors == old(sel.selectors) + [{const}] and {_keep('selectors')})")
+_N = 'len(old(sel.nth))'
+for nm, ot, last in ((':first-child', False, False), (':last-child', False, True), (':first-of-type', True, False), (':last-of-type', True, True)):
+    _PC.append(f"implies({_SIMPLE} and {_PN} == '{nm}', result[0] and len(sel.nth) == {_N} + 1 and sel.nth == old(sel.nth) + [sel.nth[{_N}]] and "
+               f"is_child_nth(sel.nth[{_N}], {ot}, {last}) and {_keep('nth')})")
+for nm, ot in ((':only-child', False), (':only-of-type', True)):
+    _PC.append(f"implies({_SIMPLE} and {_PN} == '{nm}', result[0] and len(sel.nth) == {_N} + 2 and sel.nth == old(sel.nth) + [sel.nth[{_N}], sel.nth[{_N} + 1]] and "
+               f"is_child_nth(sel.nth[{_N}], {ot}, False) and is_child_nth(sel.nth[{_N} + 1], {ot}, True) and {_keep('nth')})")
+_PC.append(f"implies({_SIMPLE} and {_PN} in PSEUDO_SIMPLE_NO_MATCH, result[0] and sel.no_match and {_keep('no_match')})")
+_PC.append(f"implies(m.group('open') and {_PN} in PSEUDO_COMPLEX, result[0] and len(sel.selectors) == len(old(sel.selectors)) + 1 and "
+           f"sel.selectors[len(old(sel.selectors))] == ps_result(self, old(iselector.pos), m.end(0), open_flags({_PN})) and {_keep('selectors')})")
+_OPEN = "m.group('open')"
+_VALID = (f"(({_SIMPLE} and ({_PN} in PSEUDO_SIMPLE or {_PN} in PSEUDO_SIMPLE_NO_MATCH)) or "
+          f"({_OPEN} and ({_PN} in PSEUDO_COMPLEX or {_PN} in PSEUDO_COMPLEX_NO_MATCH)))")
+# a normal return means the name is a supported pseudo-class written in the form (with / without parentheses) it is supported in
+_PC.append(_VALID)
+_PC.append(f"implies({_OPEN} and not ({_PN} in PSEUDO_COMPLEX) and {_PN} in PSEUDO_COMPLEX_NO_MATCH, result[0] and sel.no_match and {_keep('no_match')})")
+_PC.append(f"implies({_SIMPLE}, iselector.pos == old(iselector.pos))")
+contract(CP + 'parse_pseudo_class', params=dict(self=CSSPARSER, sel=PSEL, m=MATCH, has_selector=BOOL, iselector=ISEL, is_html=BOOL),
+         match_params={'m': PATS + 'PAT_PSEUDO_CLASS'}, returns=TTup(BOOL, BOOL),
+         modifies=['sel.flags', 'sel.selectors', 'sel.nth', 'sel.no_match', 'iselector.pos'],
+         # an error comes out of the nested list of a functional pseudo-class, or reports a name / form that is not supported
+         raises={'SelectorSyntaxError': f"{_OPEN} or not {_VALID}", 'NotImplementedError': _OPEN}, ensures=_PC, properties=['C06', 'C01', 'C17'])
